@@ -26,7 +26,8 @@ from ..core.loader import AnalysisError
 
 def check_closure_idioms(ctx, extra_roots=()):
     from .idioms import (check_shared_mutable, check_abs_of_extremum,
-                         check_narrowing_cast, check_inplace_float_store)
+                         check_narrowing_cast, check_inplace_float_store,
+                         check_truthy_position)
     from .h5names import check_h5_names_created_once
     from .scatter import check_pointer_scatter
     from .tiling import check_tiling, check_whole_axis, check_window_writes
@@ -53,6 +54,7 @@ def check_closure_idioms(ctx, extra_roots=()):
             continue
         n_fn += 1
         for rule in (check_shared_mutable, check_abs_of_extremum,
+                     check_truthy_position,
                      check_narrowing_cast, check_inplace_float_store,
                      check_h5_names_created_once, check_pointer_scatter,
                      check_whole_axis, check_request_order,
